@@ -14,8 +14,11 @@ import (
 // presence bit per field; the expected missing set is computed from the bits.
 
 type c06Doc struct {
-	json bool
+	json  bool // document text is JSON (formats 0 and 2) or ROR2 (format 1)
+	untyp bool // format 2: the JSON text is first decoded into an untyped Go value, which is then read through the interface reader
 }
+
+func c06DocFor(format int) c06Doc { return c06Doc{json: format != 1, untyp: format == 2} }
 
 func (d c06Doc) obj(fields []string) string {
 	if d.json {
@@ -52,18 +55,23 @@ var c06Unknown = [][2]string{
 	{`[[],{}]`, `List(List(),())`},
 }
 
-func c06Reader(json bool, doc string) restlicodec.Reader {
+func c06Reader(d c06Doc, doc string) restlicodec.Reader {
+	if d.untyp {
+		v, err := c13Reader(0, doc).ReadInterface()
+		verif.Assert(err == nil, "harness: JSON text does not decode into an untyped value")
+		return restlicodec.NewInterfaceReader(v)
+	}
 	f := 1
-	if json {
+	if d.json {
 		f = 0
 	}
 	return c13Reader(f, doc)
 }
 
-// Harness_C06_Missing: format 0 JSON / 1 ROR2; nElem array elements (1..2);
+// Harness_C06_Missing: format 0 JSON / 1 ROR2 / 2 untyped value; nElem array elements (1..2);
 // every required or optional field has a presence bit.
 func Harness_C06_Missing(format, nElem int) {
-	d := c06Doc{json: format == 0}
+	d := c06DocFor(format)
 	var want []string
 	var top []string
 	hasTop := verif.Bool()
@@ -125,7 +133,7 @@ func Harness_C06_Missing(format, nElem int) {
 	sort.Strings(want)
 
 	v := new(vt.Deep)
-	err := v.UnmarshalRestLi(c06Reader(d.json, doc))
+	err := v.UnmarshalRestLi(c06Reader(d, doc))
 	verif.Cover("decoded")
 	if len(want) == 0 {
 		verif.Assert(err == nil, "a complete document was rejected: "+doc)
@@ -168,7 +176,7 @@ func Harness_C06_Missing(format, nElem int) {
 // solver-chosen shape injected at a solver-chosen position; one required leaf
 // may be missing. The outcome must not depend on order or on the unknown field.
 func Harness_C06_OrderUnknown(format int) {
-	d := c06Doc{json: format == 0}
+	d := c06DocFor(format)
 	missV := verif.Bool()
 	var leaf []string
 	if !missV {
@@ -198,7 +206,7 @@ func Harness_C06_OrderUnknown(format int) {
 	}
 	doc := d.obj(fields)
 	v := new(vt.Deep)
-	err := v.UnmarshalRestLi(c06Reader(d.json, doc))
+	err := v.UnmarshalRestLi(c06Reader(d, doc))
 	if missV {
 		mf, ok := err.(*restlicodec.MissingRequiredFieldsError)
 		verif.Assert(ok && len(mf.Fields) == 1 && mf.Fields[0] == "am[0].ml.k.v", "wrong missing set for "+doc)
@@ -213,7 +221,7 @@ func Harness_C06_OrderUnknown(format int) {
 // itself includes another): each reports exactly its own and its inherited
 // missing fields.
 func Harness_C06_Includes(format int) {
-	d := c06Doc{json: format == 0}
+	d := c06DocFor(format)
 	which := verif.Choose(2) // 0 Alpha, 1 Beta
 	own := "a1"
 	if which == 1 {
@@ -231,9 +239,9 @@ func Harness_C06_Includes(format int) {
 	doc := d.obj(fields)
 	var err error
 	if which == 0 {
-		err = new(vt.Alpha).UnmarshalRestLi(c06Reader(d.json, doc))
+		err = new(vt.Alpha).UnmarshalRestLi(c06Reader(d, doc))
 	} else {
-		err = new(vt.Beta).UnmarshalRestLi(c06Reader(d.json, doc))
+		err = new(vt.Beta).UnmarshalRestLi(c06Reader(d, doc))
 	}
 	sort.Strings(want)
 	if len(want) == 0 {
@@ -302,12 +310,12 @@ func Harness_C06_QueryParams() {
 }
 
 func Harness_C06_Twin(format int) {
-	d := c06Doc{json: format == 0}
+	d := c06DocFor(format)
 	var top []string
 	if verif.Bool() {
 		top = append(top, d.kv("top", d.str("z")))
 	}
 	top = append(top, d.kv("am", d.arr(nil)))
 	v := new(vt.Deep)
-	verif.Assert(v.UnmarshalRestLi(c06Reader(d.json, d.obj(top))) == nil, "twin: some document misses a field")
+	verif.Assert(v.UnmarshalRestLi(c06Reader(d, d.obj(top))) == nil, "twin: some document misses a field")
 }
